@@ -37,6 +37,46 @@ TRUE = frozenset([frozenset()])
 FALSE = frozenset()
 
 
+class CoSet:
+    """finite or co-finite set of values over an unknown universe (the value sets of `S` decisions whose universe is None)"""
+    __slots__ = ('base', 'neg')
+    def __init__(self, base=(), neg=False):
+        if isinstance(base, CoSet): base, neg = base.base, (base.neg != neg)
+        self.base = frozenset(base); self.neg = bool(neg)
+    @staticmethod
+    def of(x): return x if isinstance(x, CoSet) else CoSet(x)
+    def __and__(s, o):
+        o = CoSet.of(o)
+        if not s.neg and not o.neg: return CoSet(s.base & o.base)
+        if s.neg and o.neg: return CoSet(s.base | o.base, True)
+        f, c = (s, o) if not s.neg else (o, s)
+        return CoSet(f.base - c.base)
+    __rand__ = __and__
+    def __or__(s, o):
+        o = CoSet.of(o)
+        if not s.neg and not o.neg: return CoSet(s.base | o.base)
+        if s.neg and o.neg: return CoSet(s.base & o.base, True)
+        f, c = (s, o) if not s.neg else (o, s)
+        return CoSet(c.base - f.base, True)
+    __ror__ = __or__
+    def complement(s): return CoSet(s.base, not s.neg)
+    def __le__(s, o): return not (s & CoSet.of(o).complement())
+    def __bool__(s): return s.neg or bool(s.base)
+    def __contains__(s, v): return s.neg if v == '<other>' else ((v in s.base) != s.neg)
+    def __iter__(s):
+        for v in sorted(s.base, key=str): yield v
+        if s.neg: yield '<other>'
+    def __eq__(s, o): return isinstance(o, CoSet) and s.base == o.base and s.neg == o.neg
+    def __hash__(s): return hash((s.base, s.neg))
+    def __repr__(s): return ('not ' if s.neg else '') + str(sorted(s.base, key=str))
+    def is_everything(s): return s.neg and not s.base
+
+
+def S_open(txt, vals, neg=False):
+    """decision `txt in vals` (or not in) on a value whose universe is not known"""
+    return ('S', txt, None, CoSet(vals, neg))
+
+
 class TooBig(Exception):
     pass
 
@@ -276,7 +316,7 @@ class Table:
                 elif op == 'Lt': c = q + (1 if r_ else 0)
                 else: c = q
         if n is None:
-            if op == 'Eq': return one(('S', txt, None, frozenset([c])))
+            if op == 'Eq': return one(S_open(txt, [c]))
             return one(('A', '%s %s %d' % (txt, op, c), True))
         f = {'Eq': lambda v: v == c, 'Ne': lambda v: v != c, 'Lt': lambda v: v < c, 'Le': lambda v: v <= c, 'Gt': lambda v: v > c, 'Ge': lambda v: v >= c}[op]
         vs = frozenset(v for v in range(n) if f(v))
@@ -575,6 +615,13 @@ class Table:
             return TRUE if taken(e[1]) else FALSE
         if e[0] == 'discr' and e[1][0] == 'call' and e[1][1].split('#')[0].endswith('Try>::branch'): return TRUE
         boolish = set(all_vals) <= {0, 1}
+        ty = t['on'].get('p', {}).get('ty') if (t is not None and isinstance(t.get('on'), dict) and e is e0) else None
+        int_typed = isinstance(ty, str) and ty in INT_BITS
+        if int_typed and self.slice_of(e) is None and e[0] not in ('op', 'un', 'call', 'discr'):
+            # an integer value that is not (a slice of) a read: `== c` decisions on the value itself, never a truth value
+            txt = self.show(e)
+            if not is_other: return one(S_open(txt, vals))
+            return one(S_open(txt, set(all_vals) - set(vals), True))
         if e[0] == 'op' and e[1] in ('Eq', 'Ne', 'Lt', 'Le', 'Gt', 'Ge') and boolish:
             res = FALSE
             for truth in (False, True):
@@ -591,7 +638,7 @@ class Table:
             txt = self.fmt_slice(s)
             if txt is None or n is None:
                 if txt is not None and not is_other:
-                    return one(('S', txt, None, frozenset(vals)))
+                    return one(S_open(txt, vals))
                 return one(('A', '%s in %s' % (self.show(e), vals if not is_other else ('not', sorted(all_vals))), True))
             lo = (mask & -mask).bit_length() - 1 if mask else 0
             def val_of(v):      # value of the switch operand when the right-aligned slice is v
@@ -669,6 +716,18 @@ class Table:
             if x[0] == 'agg' and x[1] in ('Some', 'None'):
                 return TRUE if (x[1] == 'Some') == pos else FALSE
             return one(('V', self.show(x), ('None', 'Some'), frozenset(['Some' if pos else 'None'])))
+        if (n.endswith('PartialEq>::eq') or n.endswith('PartialEq>::ne')) and len(e) == 4:
+            # Option == Some(c) / None with a promoted constant: the variant test and the payload test, as `matches!` would give them
+            want = truth == n.endswith('::eq')
+            for x, k in ((e[2], e[3]), (e[3], e[2])):
+                if k[0] == 'k' and isinstance(k[1], str):
+                    m = re.match(r'^Some\((-?\d+)\)$', k[1])
+                    d = None
+                    if k[1] == 'None': d = one(('V', self.show(x), ('None', 'Some'), frozenset(['None'])))
+                    elif m:
+                        d = dnf_and(one(('V', self.show(x), ('None', 'Some'), frozenset(['Some']))),
+                                    one(S_open(self.show(self.project(x, [('as', 1), 0])), [int(m.group(1))])))
+                    if d is not None: return d if want else dnf_not(d)
         return one(('A', self.show(e), truth))
 
     # ---- path conditions
@@ -732,7 +791,7 @@ class Table:
             out.append((i + 1, callee, ws, cond))
         return out
 
-    def return_rows(self):
+    def return_rows(self, items=None):
         """{leaf path: {value text: dnf}} over every definition of the return place; flag sets are listed under path+'|flags'"""
         rows = {}
         def add(path, val, c):
@@ -765,13 +824,25 @@ class Table:
                 t = self._cmp(v, True, None, at)
                 add(path, '1', dnf_and(c, t)); add(path, '0', dnf_and(c, dnf_not(t)))
                 return
+            if v[0] == 'un' and v[1] == 'Not' and v[2][0] == 'op' and v[2][1] in ('Eq', 'Ne', 'Lt', 'Le', 'Gt', 'Ge'):
+                t = self._cmp(v[2], True, None, at)
+                add(path, '0', dnf_and(c, t)); add(path, '1', dnf_and(c, dnf_not(t)))
+                return
             add(path, self.show(v), c)
-        for d in self.local_defs(0):
-            bb, pos, val = d
-            if val is None: continue
-            if val[0] == 'call' and val[1].split('#')[0].endswith('from_residual'): continue
+        if items is None:
+            items = []
+            for d in self.local_defs(0):
+                bb, pos, val = d
+                if val is None: continue
+                if val[0] == 'call' and val[1].split('#')[0].endswith('from_residual'): continue
+                items.append((val, bb))
+        for val, bb in items:
             walk('', val, self.pc(bb), bb)
         return rows
+
+    def value_rows(self, items):
+        """the decision rows of arbitrary values: items = [(expression, block at which it is evaluated)] (e.g. what is pushed to a vector)"""
+        return self.return_rows(items)
 
     def error_rows(self):
         """{Error variant: dnf} of the sites constructing an error value"""
@@ -814,6 +885,8 @@ def dec_join(a, b):
     """disjunction of two decisions on the same variable; 'true' when it covers everything"""
     if a[0] in ('S', 'V'):
         vs = a[3] | b[3]
+        if isinstance(vs, CoSet):
+            return 'true' if vs.is_everything() else (a[0], a[1], a[2], vs)
         n = a[2] if a[0] == 'S' else (len(a[2]) if a[2] else None)
         if n is not None and len(vs) >= n: return 'true'
         return (a[0], a[1], a[2], vs)
@@ -824,7 +897,7 @@ def dec_not(d):
     """DNF of the negation of one decision"""
     if d[0] == 'A': return one(('A', d[1], not d[2]))
     if d[0] == 'S':
-        if d[2] is None: return one(('A', '%s in %s' % (d[1], sorted(d[3])), False))
+        if d[2] is None: return one(('S', d[1], None, CoSet.of(d[3]).complement()))
         vs = frozenset(range(d[2])) - d[3]
     else:
         vs = frozenset(d[2]) - d[3]
@@ -896,29 +969,46 @@ def dnf_implies(a, b, limit=4000):
 
 
 def simplify(dnf):
+    """subsumption and one-variable merging to a fixpoint (bucketed: near-linear in the number of conjunctions per pass)"""
     dnf = set(dnf)
     if frozenset() in dnf: return TRUE
-    changed = True
-    while changed:
+    if len(dnf) < 2: return frozenset(dnf)
+    while True:
         changed = False
-        lst = list(dnf)
-        for i in range(len(lst)):
-            for j in range(len(lst)):
-                if i == j: continue
-                a, b = lst[i], lst[j]
-                if a <= b and a != b:
-                    dnf.discard(b); changed = True; break
-                da = a - b; db = b - a
-                if len(da) == 1 and len(db) == 1:
-                    x, y = next(iter(da)), next(iter(db))
-                    if dec_key(x) == dec_key(y):
-                        m = dec_join(x, y)
-                        common = a & b
-                        dnf.discard(a); dnf.discard(b)
-                        dnf.add(common if m == 'true' else frozenset(common | {m}))
-                        changed = True; break
-            if changed: break
-        if frozenset() in dnf: return TRUE
+        # merge conjunctions that differ in exactly one decision on the same variable
+        buckets = {}
+        for c in dnf:
+            for d in c:
+                buckets.setdefault((c - {d}, dec_key(d)), []).append((c, d))
+        for (rest, _k), lst in buckets.items():
+            if len(lst) < 2: continue
+            live = [(c, d) for c, d in lst if c in dnf]
+            if len(live) < 2: continue
+            m = live[0][1]
+            for _c, d in live[1:]:
+                m = dec_join(m, d)
+                if m == 'true': break
+            for c, _d in live: dnf.discard(c)
+            if m == 'true':
+                if not rest: return TRUE
+                dnf.add(rest)
+            else: dnf.add(frozenset(rest | {m}))
+            changed = True
+        # subsumption: drop every conjunction that contains another one
+        if len(dnf) > 1:
+            kept = {}            # representative literal -> conjunctions kept
+            out = set()
+            for c in sorted(dnf, key=len):
+                sub = False
+                for d in c:
+                    for k in kept.get(d, ()):
+                        if k <= c: sub = True; break
+                    if sub: break
+                if sub: changed = True; continue
+                out.add(c)
+                kept.setdefault(min(c, key=repr), []).append(c)
+            dnf = out
+        if not changed: break
     return frozenset(dnf)
 
 
@@ -956,7 +1046,7 @@ def dnf_diff(a, b, limit=1 << 20):
         # partition the universe by membership signature
         classes = {}
         for v in uni:
-            sig = tuple(v in s for s in sorted(sets, key=sorted))
+            sig = tuple(v in s_ for s_ in sorted(sets, key=lambda z: sorted(map(str, z))))
             classes.setdefault(sig, v)
         doms.append((key, list(classes.values())))
     total = 1
@@ -1032,6 +1122,10 @@ def _split_overlaps(a, b):
 
 # ---- printing
 def fmt_dec(d):
+    if d[0] == 'S' and isinstance(d[3], CoSet):
+        b_ = sorted(d[3].base, key=str)
+        if d[3].neg: return '%s!=%s' % (d[1], b_[0]) if len(b_) == 1 else '%s not in %s' % (d[1], b_)
+        return '%s==%s' % (d[1], b_[0]) if len(b_) == 1 else '%s in %s' % (d[1], b_)
     if d[0] == 'S':
         vs = sorted(d[3])
         if d[2] == 2: return '%s=%d' % (d[1], vs[0]) if len(vs) == 1 else '%s=any' % d[1]
